@@ -28,6 +28,19 @@ class BoundConsts(object):
         return '[%sms:%s]' % (lang.num(a * 1000), nm)
 
 
+def ms_ivl(i):
+    """Printer of the sibling-unit class: bounds below 1/10 s are written in ms, the others in s, so that
+    (0, 2) and (0, 2/1000) become `[0:2s]` and `[0:2ms]` - the same numerals, another unit."""
+    a, b = i
+    if b < Fr(1, 10) and (Fr(b) * 1000).denominator == 1 and (Fr(a) * 1000).denominator == 1:
+        return '[%s:%sms]' % (lang.num(Fr(a) * 1000), lang.num(Fr(b) * 1000))
+    return '[%s:%ss]' % (lang.num(a), lang.num(b))
+
+
+def text_of(case, g):
+    return lang.to_text(g, ivl_printer=ms_ivl) if case.get('ms_printer') else lang.to_text(g)
+
+
 def inlined_ivl(i):
     return '[%sms:%s]' % (lang.num(i[0] * 1000), lang.num(i[1] * 1000))
 
@@ -51,16 +64,16 @@ def modular_sd(case, names):
             sd['subspecs'] = texts
             sd['text'] = 'out = %s;' % top_text
         return sd
-    texts = ['%s = %s;' % (nm, lang.to_text(g)) for nm, g in defs]
+    texts = ['%s = %s;' % (nm, text_of(case, g)) for nm, g in defs]
     declared = list(names)
     if case.get('declare_names', True):
         declared += [nm for nm, _ in defs] + ['out']
     sd = {'vars': declared, 'consts': consts}
     if case.get('style') == 'one-text':
-        sd['text'] = '\n'.join(texts + ['out = %s;' % lang.to_text(top)])
+        sd['text'] = '\n'.join(texts + ['out = %s;' % text_of(case, top)])
     else:
         sd['subspecs'] = texts
-        sd['text'] = 'out = %s;' % lang.to_text(top)
+        sd['text'] = 'out = %s;' % text_of(case, top)
     return sd
 
 
@@ -120,8 +133,27 @@ class C09(Prop):
     def shrinkable(self, case):
         return False
 
+    def gen_sibling(self, rng, kind):
+        """Two named assertions over the same operand whose intervals have the same numerals and another unit
+        (`recent = once[0:2ms](p); steady = once[0:2s](p)`), dense time."""
+        p = lang.N(rng.choice(['geq', 'leq', 'gt', 'lt']), lang.V('x'), lang.C(rng.choice([0.0, 1.0, 2.0])))
+        op = rng.choice(['once', 'historically'])
+        b = rng.choice([1, 2, 3])
+        a = rng.choice([0, 0, 1]) if b > 1 else 0
+        wide, narrow = lang.N(op, p, ivl=(Fr(a), Fr(b))), lang.N(op, p, ivl=(Fr(a, 1000), Fr(b, 1000)))
+        defs = rng.sample([('sa', wide), ('sb', narrow)], 2)
+        defs = [('sa', defs[0][1]), ('sb', defs[1][1])]
+        top = lang.N(rng.choice(['or', 'and', 'implies']), lang.V('sa'), lang.N('not', lang.V('sb')))
+        base = lang.gen_signal(rng, n=rng.randint(4, 9), start=Fr(0))
+        sig = {'x': [(t, rng.choice(lang.SMALL)) for (t, _) in base]}
+        return {'kind': kind, 'top': lang.to_jsonable(top), 'defs': [(nm, lang.to_jsonable(g)) for nm, g in defs],
+                'consts': [], 'style': rng.choice(['add_sub_spec', 'one-text']), 'declare_names': True,
+                'ms_printer': True, 'signals': sig_text(sig)}
+
     def gen(self, rng, ctx):
         kind = rng.choice(KINDS)
+        if kind in ('ct_on', 'ct_off') and rng.random() < 0.12:
+            return self.gen_sibling(rng, kind)
         f, top, defs, consts = gen_modular(rng, kind)
         names = lang.variables(f) or ['x']
         case = {'kind': kind, 'top': lang.to_jsonable(top), 'defs': [(nm, lang.to_jsonable(g)) for nm, g in defs],
@@ -193,7 +225,7 @@ class C09(Prop):
             return v
         rel = rel_for(f)
         try:
-            itext = lang.to_text(f, ivl_printer=inlined_ivl) if case.get('bound_consts') else lang.to_text(f)
+            itext = lang.to_text(f, ivl_printer=inlined_ivl) if case.get('bound_consts') else text_of(case, f)
             if case.get('bound_consts'):
                 v.info['class:bound-constants'] = 1
             inl = self.execute(kind, {'text': itext, 'vars': names}, names, case)
